@@ -68,11 +68,11 @@ theorem header_as_specified (spec : Spec) (s : Nat → Nat) (tokOff i : Nat) (p 
     · rw [hdl.1 h0]; exact hd
     · exact (hdl.2 (by omega)).2
   have hobs := observe_bytes (hdrOf spec s tokOff i) out.lengthField
-    (p ++ List.replicate (exactFill plan (hdrOf spec s tokOff i).len p.length) 0) out.datagramLen
+    (p ++ List.replicate (innerPad plan (hdrOf spec s tokOff i).len (hdrOf spec s tokOff i).pnLen p.length) 0) out.datagramLen
     (by show (1 : Nat) < 4294967296; omega) hdc (by show (scidFor spec s).length ≤ 20; rw [hsl]; exact hs)
     ht hpn (by omega)
   rw [← hplain] at hobs
-  have hplen : (p ++ List.replicate (exactFill plan (hdrOf spec s tokOff i).len p.length) 0).length = out.payloadLen := by
+  have hplen : (p ++ List.replicate (innerPad plan (hdrOf spec s tokOff i).len (hdrOf spec s tokOff i).pnLen p.length) 0).length = out.payloadLen := by
     simp [hpl]
   have hpnl : (hdrOf spec s tokOff i).pnLen = pnLenFor spec i := rfl
   refine ⟨_, hobs, rfl, rfl, rfl, hsl, rfl, hdl.1, hdl.2, rfl, rfl, rfl, ?_, rfl, hplen, ?_, rfl, ?_, ?_⟩
@@ -100,19 +100,22 @@ theorem pn_sequence (spec : Spec) (i : Nat) :
   · rw [if_neg (by omega)]
   · rw [if_pos h]
 
-/-- full statement: every Initial uses entry `min i last` of the length list / the single override / the default rule -/
-def pn_len_full : Prop := ∀ (spec : Spec) (i : Nat), pnLenFor spec i = intendedPnLen spec i
-
-/-- … which holds whenever `InitPacketNumber` is a packet number -/
-theorem pn_len_partial (spec : Spec) (i : Nat) (hpn : spec.initPN ≤ 4611686018427387903)
-    (hi : i < 4611686018427387904) : pnLenFor spec i = intendedPnLen spec i := by
-  have hne : ¬ spec.initPN > 4611686018427387903 := by omega
-  unfold pnLenFor intendedPnLen intendedPN intendedFirstPN pnFor initialPN pnBase
-  rw [maxPN_eq]
-  simp only [hne, hpn, if_true, if_false]
+/-- per-packet encoding length, at full strength (every uint64 `InitPacketNumber`; `i` ranges over a Go `int`):
+    the `i`-th Initial uses entry `min i last` of the length list, else the single override, else the default
+    rule. (Before /repo e2b1c44 this failed for `InitPacketNumber > 2^62-1`: the list was indexed from the raw value.) -/
+theorem pn_len (spec : Spec) (i : Nat) (hi : i < 9223372036854775808) : pnLenFor spec i = intendedPnLen spec i := by
+  have hini : initialPN spec = intendedFirstPN spec := by
+    unfold initialPN intendedFirstPN; rw [maxPN_eq]
+    by_cases h : spec.initPN > 4611686018427387903
+    · rw [if_pos h, if_neg (by omega)]
+    · rw [if_neg h, if_pos (by omega)]
+  have hb : initialPN spec ≤ 4611686018427387903 := by
+    unfold initialPN; rw [maxPN_eq]; split <;> omega
+  unfold pnLenFor intendedPnLen intendedPN pnFor pnBase
+  rw [← hini]
   by_cases hl : spec.pnLens.length > 0
   · simp only [hl, if_true]
-    have hw : wrap64 (((spec.initPN + i : Nat) : Int) - wrap64 (spec.initPN : Nat)) = (i : Int) := by
+    have hw : wrap64 (((initialPN spec + i : Nat) : Int) - ((initialPN spec : Nat) : Int)) = (i : Int) := by
       unfold wrap64; omega
     rw [hw]
     have hn0 : ¬ ((i : Int) < 0) := by omega
@@ -125,25 +128,32 @@ theorem pn_len_partial (spec : Spec) (i : Nat) (hpn : spec.initPN ≤ 4611686018
       rw [Nat.min_eq_left (by omega)]
   · simp only [hl, if_false]
 
-/-- … and is false beyond: with `InitPacketNumber = 2^62` and lengths `[1, 2]` the second Initial is
-    encoded in 1 byte, not 2 (u_connection.go seeds the index base with the raw value) -/
+/-- the spec that used to be the counterexample (`InitPacketNumber = 2^62`, lengths `[1, 2]`): the second
+    Initial now uses 2 bytes -/
 def beyondSpec : Spec := { initPN := 4611686018427387904, pnLens := [1, 2] }
 
-theorem pn_len_witness : ¬ pn_len_full := by
-  intro h
-  have h2 : pnLenFor beyondSpec 1 = 1 := by
-    simp [beyondSpec, pnLenFor, pnFor, initialPN, pnBase, wrap64, maxPN_eq]
-  have h3 : intendedPnLen beyondSpec 1 = 2 := by
-    simp [beyondSpec, intendedPnLen]
-  have h1 := h beyondSpec 1
-  rw [h2, h3] at h1
-  exact absurd h1 (by decide)
+example : pnLenFor beyondSpec 1 = 2 := by
+  simp [beyondSpec, pnLenFor, pnFor, initialPN, pnBase, wrap64, maxPN_eq]
 
-theorem pn_sequence_and_length (spec : Spec) (i : Nat) (hpn : spec.initPN ≤ 4611686018427387903)
-    (hi : i < 4611686018427387904) :
-    pnFor spec i = spec.initPN + i ∧ pnLenFor spec i = intendedPnLen spec i := by
-  refine ⟨?_, pn_len_partial spec i hpn hi⟩
-  rw [(pn_sequence spec i).1, (pn_sequence spec i).2.1 hpn]
+theorem pn_sequence_and_length (spec : Spec) (i : Nat) (hi : i < 9223372036854775808) :
+    pnFor spec i = intendedPN spec i ∧ pnLenFor spec i = intendedPnLen spec i := by
+  refine ⟨?_, pn_len spec i hi⟩
+  unfold pnFor intendedPN initialPN intendedFirstPN; rw [maxPN_eq]
+  by_cases h : spec.initPN > 4611686018427387903
+  · rw [if_pos h, if_neg (by omega)]
+  · rw [if_neg h, if_pos (by omega)]
+
+/-- the plan index advances on every path (before /repo 2233b03 it stayed 0 for a nil FrameBuilder / empty
+    QUICFrames): datagram `i` is packed with entry `min i last` of `InitialPackets` -/
+theorem plan_index_advances (spec : Spec) (i : Nat) : planOf spec i = intendedPlan spec i := by
+  unfold planOf planIdx planFor intendedPlan
+  by_cases h0 : spec.plans.length = 0
+  · rw [if_pos h0, if_pos h0]
+  · rw [if_neg h0, if_neg h0]
+    congr 1
+    by_cases hge : i ≥ spec.plans.length
+    · rw [if_pos hge]; omega
+    · rw [if_neg hge]; omega
 
 /-! ### 3. token_rules -/
 
@@ -184,24 +194,30 @@ theorem sizes (h : Hdr) (p : List Nat) (plan : Plan) (udpMin cap : Nat) (out : O
     out.packetLen = h.len + out.payloadLen + 16 ∧
     -- the header as serialised is as long as the header length the sizes were computed with
     (h.bytes out.lengthField).length = h.len ∧ out.plain.length + 16 = out.packetLen ∧
+    -- a header-protection sample always exists
+    h.pnLen + out.payloadLen ≥ 4 ∧
     -- exact PacketSize when the content fits, and never trailing bytes after an exact-size packet
-    (plan.packetSize > 0 → h.len + p.length + 16 ≤ plan.packetSize → out.packetLen = plan.packetSize) ∧
+    (plan.packetSize > 0 → h.len + p.length + 16 ≤ plan.packetSize → h.len + 4 + 16 ≤ plan.packetSize →
+      out.packetLen = plan.packetSize) ∧
     (plan.packetSize > 0 → out.datagramLen = out.packetLen) ∧
-    -- otherwise nothing is added inside the packet and the datagram is padded to the UDP minimum (or 1200)
-    (plan.packetSize = 0 → out.payloadLen = p.length ∧
-      out.datagramLen = max out.packetLen (if udpMin = 0 then 1200 else udpMin)) := by
-  obtain ⟨hpl, hlf, hpk, _, _, hdg, hplain⟩ := assemble_ok _ _ _ _ _ _ hok
+    -- otherwise only the sample minimum is added inside the packet and the datagram is padded to the UDP
+    -- minimum (or 1200), capped at the packet buffer
+    (plan.packetSize = 0 → out.payloadLen = p.length + samplePad h.pnLen p.length ∧
+      out.datagramLen = max out.packetLen (min (if udpMin = 0 then 1200 else udpMin) cap)) := by
+  obtain ⟨hpl, hlf, hpk, _, hpn, hdg, hplain⟩ := assemble_ok _ _ _ _ _ _ hok
   rw [tagLen_eq] at *
-  refine ⟨hlf, hpk, bytes_length _ _, ?_, ?_, ?_, ?_⟩
+  have hs := innerPad_sample plan h.len h.pnLen p.length hpn.2
+  refine ⟨hlf, hpk, bytes_length _ _, ?_, by omega, ?_, ?_, ?_⟩
   · rw [hplain, List.length_append, bytes_length, hpk, hpl]; simp
-  · intro hps hfit
-    rw [hpk, hpl]; unfold exactFill; rw [if_pos hps, tagLen_eq]; omega
+  · intro hps hfit hmin
+    rw [hpk, hpl]; unfold innerPad exactFill samplePad; rw [if_pos hps, tagLen_eq]
+    split <;> omega
   · intro hps
     rw [hdg]; unfold datagramLenOf; rw [if_neg (by omega)]
   · intro hps
     have hf : exactFill plan h.len p.length = 0 := by unfold exactFill; rw [if_neg (by omega)]
-    refine ⟨by rw [hpl, hf]; rfl, ?_⟩
-    rw [hdg]; unfold datagramLenOf; rw [if_pos hps, defaultUDPMin_eq, Nat.max_def]
+    refine ⟨by rw [hpl]; unfold innerPad; rw [hf]; simp, ?_⟩
+    rw [hdg]; unfold datagramLenOf; rw [if_pos hps, defaultUDPMin_eq, Nat.max_def, Nat.min_def]
     simp only []
     repeat' split
     all_goals omega
@@ -217,13 +233,14 @@ theorem crypto_split_offsets (spec : Spec) (plan : Plan) (hdr off remaining maxS
 
 /-! ### 5. fits_buffer_or_error -/
 
-/-- `appendInitialPacketPayload` never writes a packet beyond the buffer: it emits at most `cap` bytes or
-    returns one of the two diagnosable errors -/
+/-- `appendInitialPacketPayload` never writes beyond the buffer: the packet AND the padded datagram are at most
+    `cap` bytes, or one of the two diagnosable errors is returned (no hypothesis on the UDP minimum: it is capped
+    at the buffer since /repo aedbf0e) -/
 theorem fits_buffer_or_error (h : Hdr) (p : List Nat) (plan : Plan) (udpMin cap : Nat) :
     (∃ out, assemble h p plan udpMin cap = .ok out ∧ out.packetLen ≤ cap ∧ out.plain.length + 16 = out.packetLen ∧
-      (plan.packetSize > 0 ∨ (udpMin ≤ cap ∧ 1200 ≤ cap) → out.datagramLen ≤ cap)) ∨
+      out.datagramLen ≤ cap) ∨
     (assemble h p plan udpMin cap = .error .nofit ∧
-      h.len + (p.length + exactFill plan h.len p.length) + 16 > cap) ∨
+      h.len + (p.length + innerPad plan h.len h.pnLen p.length) + 16 > cap) ∨
     (assemble h p plan udpMin cap = .error .badPnLen ∧ (h.pnLen < 1 ∨ h.pnLen > 4)) := by
   cases hres : assemble h p plan udpMin cap with
   | ok out =>
@@ -231,37 +248,69 @@ theorem fits_buffer_or_error (h : Hdr) (p : List Nat) (plan : Plan) (udpMin cap 
     obtain ⟨_, _, _, hfit, _, hdg, _⟩ := assemble_ok _ _ _ _ _ _ hres
     have hsz := sizes h p plan udpMin cap out hres
     refine ⟨out, rfl, hfit, hsz.2.2.2.1, ?_⟩
-    intro hcond
     rw [hdg]; unfold datagramLenOf
-    rw [defaultUDPMin_eq]
-    by_cases hps : plan.packetSize = 0
-    · rw [if_pos hps]
-      rcases hcond with h1 | ⟨h1, h2⟩
-      · omega
-      · simp only []; repeat' split
-        all_goals omega
-    · rw [if_neg hps]; exact hfit
+    simp only []
+    repeat' split
+    all_goals omega
   | error e =>
     right
     rcases assemble_err _ _ _ _ _ _ hres with ⟨he, hgt⟩ | ⟨he, hpn⟩
     · left; subst he; rw [tagLen_eq] at hgt; exact ⟨rfl, hgt⟩
     · right; subst he; exact ⟨rfl, hpn⟩
 
-/-- the UDP-minimum padding is NOT bounded by the buffer: a `UDPDatagramMinSize` above 1452 makes the
-    datagram larger than the packet buffer (in Go the `append` then moves `buffer.Data` off the pooled
-    array and `putBack` panics); the quantifier of the property (UDP minimum ≤ 1452) excludes it -/
-theorem udp_min_beyond_buffer_witness :
-    ∃ out, assemble { dcid := List.replicate 8 0, scid := [], token := [], pn := 0, pnLen := 1 } [6, 0, 1, 1] {} 1500 1452 = .ok out ∧
-      out.datagramLen > 1452 := by
-  refine ⟨_, rfl, ?_⟩
-  decide
+/-- `UDPDatagramMinSize: 1500` (above the 1452-byte buffer): the datagram is 1452 bytes -/
+example : (assemble { dcid := List.replicate 8 0, scid := [], token := [], pn := 0, pnLen := 1 } [6, 0, 1, 1] {} 1500 1452).toOption.map
+    (fun out => out.datagramLen) = some 1452 := by decide
 
 /-! ### 6. decryptable -/
 
-/-- the first packet number fits its own encoding (what the dial never checks) -/
+/-- the first packet number fits its own encoding -/
 def PNRepresentable (spec : Spec) : Prop := initialPN spec < 256 ^ pnLenFor spec 0
 
 instance (spec : Spec) : Decidable (PNRepresentable spec) := by unfold PNRepresentable; infer_instance
+
+theorem initialPN_le (spec : Spec) : initialPN spec ≤ 4611686018427387903 := by
+  unfold initialPN; rw [maxPN_eq]; split <;> omega
+
+/-- `firstPNLen` (what `dial` looks at) is the encoding length the first Initial really gets -/
+theorem firstPNLen_eq (spec : Spec) : firstPNLen spec = pnLenFor spec 0 := by
+  have hb := initialPN_le spec
+  unfold firstPNLen pnLenFor pnFor pnBase
+  by_cases hl : spec.pnLens.length > 0
+  · simp only [hl, if_true]
+    have hw : wrap64 (((initialPN spec + 0 : Nat) : Int) - ((initialPN spec : Nat) : Int)) = 0 := by
+      unfold wrap64; omega
+    rw [hw]
+    have hn0 : ¬ ((0 : Int) < 0) := by omega
+    have h2 : ¬ ((0 : Int) ≥ (spec.pnLens.length : Nat)) := by omega
+    simp only [hn0, h2, if_false, Int.toNat_zero]
+  · simp only [hl, if_false]; rfl
+
+/-- `Dial` returns the "cannot be encoded" error EXACTLY when the first packet number does not fit the (valid)
+    encoding length of the first Initial packet: `initialPN ≥ 2^(8·firstPNLen)` -/
+theorem dial_rejects_iff (spec : Spec) :
+    dialRejects spec = true ↔
+      (1 ≤ pnLenFor spec 0 ∧ pnLenFor spec 0 ≤ 4 ∧ initialPN spec ≥ 2 ^ (8 * pnLenFor spec 0)) := by
+  unfold dialRejects; rw [firstPNLen_eq]; simp
+
+/-- so every dial that goes ahead with a valid encoding length has a representable first packet number -/
+theorem accepted_dial_representable (spec : Spec) (hacc : dialRejects spec = false)
+    (hl : 1 ≤ pnLenFor spec 0 ∧ pnLenFor spec 0 ≤ 4) : PNRepresentable spec := by
+  have h : ¬ (1 ≤ pnLenFor spec 0 ∧ pnLenFor spec 0 ≤ 4 ∧ initialPN spec ≥ 2 ^ (8 * pnLenFor spec 0)) := by
+    intro hc
+    have := (dial_rejects_iff spec).2 hc
+    rw [hacc] at this
+    cases this
+  unfold PNRepresentable
+  have hp : (256 : Nat) ^ pnLenFor spec 0 = 2 ^ (8 * pnLenFor spec 0) := by
+    rw [show (256 : Nat) = 2 ^ 8 by rfl, ← Nat.pow_mul]
+  rw [hp]; omega
+
+/-- `InitPacketNumber: 300` with a 1-byte encoding, `2^31` in 2 bytes, `2^62-1` in 4 bytes are refused;
+    `255` in 1 byte and `2^31` in 4 bytes are not -/
+example : dialRejects { initPN := 300, pnLen1 := 1 } = true ∧ dialRejects { initPN := 2147483648, pnLens := [2, 4] } = true ∧
+    dialRejects { initPN := 255, pnLen1 := 1 } = false ∧ dialRejects { initPN := 2147483648, pnLen1 := 4 } = false := by
+  simp [dialRejects, firstPNLen, initialPN, maxPN_eq]
 
 /-- a server that has processed nothing yet (largest = 0, as quic-go's opener) decodes the first Initial's
     truncated packet number to the number the client encrypted with — iff it is representable -/
@@ -279,8 +328,10 @@ theorem next_pn_decodes (pnLen pn : Nat) (hl : 1 ≤ pnLen ∧ pnLen ≤ 4) (_hp
   have : pnLen = 1 ∨ pnLen = 2 ∨ pnLen = 3 ∨ pnLen = 4 := by omega
   rcases this with h | h | h | h <;> subst h <;> simp [decodePN] <;> omega
 
-/-- what a conformant server does with the first Initial the model emits for `(spec, s, p, plan)` -/
+/-- what a conformant server does with the first Initial the model emits for `(spec, s, p, plan)` of a dial
+    that is not refused -/
 def firstInitialOpens (spec : Spec) (s : Nat → Nat) (tokOff : Nat) (p : List Nat) (plan : Plan) (udpMin : Nat) : Bool :=
+  if dialRejects spec then true else
   match assemble (hdrOf spec s tokOff 0) p plan udpMin 1452 with
   | .ok out => match observe out.plain out.datagramLen with
     | some v => serverCanOpen (pnFor spec 0) 0 v
@@ -293,17 +344,19 @@ def decryptable_full : Prop :=
   ∀ (spec : Spec) (s : Nat → Nat) (tokOff : Nat) (p : List Nat) (plan : Plan) (udpMin : Nat),
     spec.scidLen ≤ 20 → spec.dcidLen ≤ 20 → firstInitialOpens spec s tokOff p plan udpMin = true
 
-/-- proved restriction: a header-protection sample exists (`pnLen + |payload| ≥ 4`), the first packet number
-    is representable, and the destination connection ID is the library default or at least 8 bytes.
+/-- proved restriction. The only hypothesis that is a real gap is `hd8`: a `DestConnIDLength` of 1..7 is still
+    honoured (known finding). The header-protection sample needs no hypothesis any more (`assemble` pads), and
+    the packet number decodes for every dial that is not refused (`dialRejects spec = false`).
     (AEAD and header protection themselves are property C05's theorems.) -/
 theorem decryptable_partial (spec : Spec) (s : Nat → Nat) (tokOff i : Nat) (p : List Nat) (plan : Plan)
     (udpMin cap : Nat) (out : Out) (v : View)
     (hs : spec.scidLen ≤ 20) (hd : spec.dcidLen ≤ 20) (hd8 : spec.dcidLen = 0 ∨ 8 ≤ spec.dcidLen)
     (ht : (tokenFor spec s tokOff).length < 4611686018427387904) (hcap : cap < 16384)
+    (hacc : dialRejects spec = false)
+    (hl0 : 1 ≤ pnLenFor spec 0 ∧ pnLenFor spec 0 ≤ 4)
     (hok : assemble (hdrOf spec s tokOff i) p plan udpMin cap = .ok out)
     (hobs : observe out.plain out.datagramLen = some v)
-    (hsample : pnLenFor spec i + out.payloadLen ≥ 4)
-    (hrep : PNRepresentable spec) (hrange : pnFor spec i < 4611686018427387904 - 4294967296) :
+    (hrange : i < 4294967296) :
     serverCanOpen (pnFor spec i) (if i = 0 then 0 else (pnFor spec i : Int) - 1) v = true := by
   obtain ⟨v', hv', _, _, _, _, _, hdl1, hdl0, _, hpl, hpn, _, _, hpay, _⟩ :=
     header_as_specified spec s tokOff i p plan udpMin cap out hs hd ht hcap hok
@@ -312,6 +365,14 @@ theorem decryptable_partial (spec : Spec) (s : Nat → Nat) (tokOff i : Nat) (p 
   subst hv'
   obtain ⟨_, _, _, _, hlen, _, _⟩ := assemble_ok _ _ _ _ _ _ hok
   have hlen' : 1 ≤ pnLenFor spec i ∧ pnLenFor spec i ≤ 4 := hlen
+  have hsample := (sizes _ _ _ _ _ _ hok).2.2.2.2.1
+  have hrep := accepted_dial_representable spec hacc hl0
+  have hb : initialPN spec < 4294967296 := by
+    have h32 : 256 ^ pnLenFor spec 0 ≤ 4294967296 := by
+      have : pnLenFor spec 0 = 1 ∨ pnLenFor spec 0 = 2 ∨ pnLenFor spec 0 = 3 ∨ pnLenFor spec 0 = 4 := by omega
+      rcases this with h | h | h | h <;> rw [h] <;> decide
+    unfold PNRepresentable at hrep
+    omega
   unfold serverCanOpen
   simp only [Bool.and_eq_true, decide_eq_true_eq]
   refine ⟨⟨by rw [hpl, hpay]; exact hsample, ?_⟩, ?_⟩
@@ -319,36 +380,27 @@ theorem decryptable_partial (spec : Spec) (s : Nat → Nat) (tokOff i : Nat) (p 
     by_cases hi : i = 0
     · subst hi
       rw [if_pos rfl]
-      exact (first_pn_decodes _ _ hlen' (by omega)).2 (by unfold PNRepresentable at hrep; unfold pnFor; simpa using hrep)
+      exact (first_pn_decodes _ _ hlen' (by unfold pnFor; omega)).2 (by unfold PNRepresentable at hrep; unfold pnFor; simpa using hrep)
     · rw [if_neg hi]
-      exact next_pn_decodes _ _ hlen' (by unfold pnFor; omega) hrange
+      exact next_pn_decodes _ _ hlen' (by unfold pnFor; omega) (by unfold pnFor; omega)
   · rcases hd8 with h0 | h8
     · exact (hdl0 h0).1
     · rw [hdl1 (by omega)]; exact h8
 
-/-- excluded point 1: `InitPacketNumber: 300` with a 1-byte encoding (the spec is accepted at dial time):
-    the server decodes 44 -/
-theorem decryptable_witness_pn :
-    ¬ PNRepresentable { initPN := 300, pnLen1 := 1 } ∧ decodePN 1 0 ((300 % 256 : Nat) : Int) ≠ 300 := by
-  constructor
-  · simp [PNRepresentable, pnLenFor, initialPN, maxPN_eq]
-  · simp [decodePN]
-
-/-- excluded point 2: a lone PING with a 1-byte packet number is emitted without padding: 2 bytes where the
-    header-protection sample needs 4 -/
-theorem decryptable_witness_short :
-    firstInitialOpens { dcidLen := 8, pnLen1 := 1 } (fun _ => 0) 0 [1] {} 0 = false := by
+/-- a lone PING with a 1-byte packet number (the former excluded point) is padded to 3 payload bytes and opens -/
+theorem lone_ping_is_padded :
+    firstInitialOpens { dcidLen := 8, pnLen1 := 1 } (fun _ => 0) 0 [1] {} 0 = true ∧
+    (assemble (hdrOf { dcidLen := 8, pnLen1 := 1 } (fun _ => 0) 0 0) [1] {} 0 1452).toOption.map (·.payloadLen) = some 3 := by
   decide
 
-/-- excluded point 3: `DestConnIDLength` 1..7 is honoured (a conformant server drops such Initials) -/
+/-- the remaining excluded point: `DestConnIDLength` 1..7 is honoured (a conformant server drops such Initials) -/
 theorem decryptable_witness_dcid :
     firstInitialOpens { dcidLen := 5, pnLen1 := 1 } (fun _ => 0) 0 [6, 0, 1, 1] {} 0 = false := by
   decide
 
 theorem decryptable_witness : ¬ decryptable_full := by
   intro h
-  -- InitPacketNumber 300 in one byte
-  have := h { initPN := 300, pnLen1 := 1, dcidLen := 8 } (fun _ => 0) 0 [6, 0, 1, 1] {} 0 (by decide) (by decide)
+  have := h { dcidLen := 5, pnLen1 := 1 } (fun _ => 0) 0 [6, 0, 1, 1] {} 0 (by decide) (by decide)
   revert this
   decide
 
